@@ -111,33 +111,32 @@ Fixpoint chunks {A} (fuel : nat) (k : nat) (l : list A) : list (list A) :=
 Definition jnext_ok (p : jpos) : bool := j_gen p <? U64MAX.
 
 (* retire_extents: coalesce, then per chunk: journal active -> markers -> journal clear.
-   None = the call failed (coalesce rejected the list, or the journal generation is exhausted):
-   the caller is poisoned. *)
-Definition retire_extents (img : image) (p : jpos) (exts : list (N * N)) : option (image * jpos) :=
+   Returns the image as far as it was written, the journal position, and whether the call
+   succeeded (false: coalesce rejected the list, or the journal generation is exhausted --
+   the caller is poisoned). *)
+Definition retire_extents (img : image) (p : jpos) (exts : list (N * N)) : image * jpos * bool :=
   match exts with
-  | [] => Some (img, p)
+  | [] => (img, p, true)
   | _ =>
     match coalesce exts with
-    | None => None
+    | None => (img, p, false)
     | Some co =>
-        fold_left (fun (acc : option (image * jpos)) (chunk : list (N * N)) =>
-                match acc with
-                | None => None
-                | Some (im, q) =>
-                  if negb (jnext_ok q) then None else
+        fold_left (fun (acc : image * jpos * bool) (chunk : list (N * N)) =>
+                let '(im, q, ok) := acc in
+                if negb ok then acc
+                else if negb (jnext_ok q) then (im, q, false) else
                   let q1 := jnext q in
                   let im1 := write_journal im (j_slot q1) (j_gen q1) JOURNAL_ACTIVE chunk in
                   let im2 := write_markers im1 chunk in
-                  if negb (jnext_ok q1) then None else
+                  if negb (jnext_ok q1) then (im2, q1, false) else
                   let q2 := jnext q1 in
-                  Some (write_journal im2 (j_slot q2) (j_gen q2) JOURNAL_CLEAR [], q2)
-                end)
-              (chunks (S (length co)) (N.to_nat ALLOCATION_JOURNAL_MAX_ENTRIES) co) (Some (img, p))
+                  (write_journal im2 (j_slot q2) (j_gen q2) JOURNAL_CLEAR [], q2, true))
+              (chunks (S (length co)) (N.to_nat ALLOCATION_JOURNAL_MAX_ENTRIES) co) (img, p, true)
     end
   end.
 
 (* replay_allocation_journal *)
-Inductive replay_result := ReplayOk (img : image) (p : jpos) | ReplayCoalesce | ReplayExhausted.
+Inductive replay_result := ReplayOk (img : image) (p : jpos) | ReplayCoalesce | ReplayExhausted (img : image).
 Definition replay (img : image) (p : jpos) (exts : list (N * N)) : replay_result :=
   match exts with
   | [] => ReplayOk img p
@@ -146,7 +145,7 @@ Definition replay (img : image) (p : jpos) (exts : list (N * N)) : replay_result
     | None => ReplayCoalesce
     | Some co =>
         let im := write_markers img co in
-        if negb (jnext_ok p) then ReplayExhausted else
+        if negb (jnext_ok p) then ReplayExhausted im else
         let q := jnext p in
         ReplayOk (write_journal im (j_slot q) (j_gen q) JOURNAL_CLEAR []) q
     end
@@ -200,8 +199,7 @@ Definition scan_step (c : rcfg) (version total : N) (sector : N) (rest : image)
     match rest with
     | [] => Panic                                   (* scanner.block beyond the device *)
     | data :: tails =>
-      if Nat.ltb (length data) BLOCK then Panic      (* blocks are full by construction *)
-      else if list_eqb (firstn 8 data) DELETED_TAG then
+      if list_eqb (firstn 8 data) DELETED_TAG then
         (* retirement marker *)
         if negb (has_token version) && all_zero (skipn 8 data) then
           if negb (c_allow_ambiguous c) then Rej EAmbiguous
@@ -228,8 +226,9 @@ Definition scan_step (c : rcfg) (version total : N) (sector : N) (rest : image)
         if (negb (has_token version) && negb (seq =? 0)) || (has_token version && (seq =? 0))
         then Rej ECorrupt
         else match parse_head version data with
-        | None => legacy_skip version sector st jl1
-        | Some (key, vlen, ts, exp) =>
+        | None => Panic                                 (* slice out of range in parse_record *)
+        | Some None => legacy_skip version sector st jl1
+        | Some (Some (key, vlen, ts, exp)) =>
           let klen := N.of_nat (length key) in
           if (MAX_KEY_SIZE <? klen) || (vlen =? 0) || (MAX_VALUE_SIZE <? vlen)
           then legacy_skip version sector st jl1
@@ -323,42 +322,50 @@ Record opened := mkopened {
 
 Definition nth_block (img : image) (i : nat) : block := nth i img [].
 
-(* open of a non-fresh, validly sized image *)
-Definition open_image (c : rcfg) (img : image) : res opened :=
+(* open of a non-fresh, validly sized image: the outcome and the device image as the call
+   leaves it (also when it fails) *)
+Definition open_image (c : rcfg) (img : image) : res opened * image :=
   let total := N.of_nat (length img) in
-  if Nat.ltb (length img) 17 then Rej EInvalidDevice          (* validate_device_size *)
+  if Nat.ltb (length img) 17 then (Rej EInvalidDevice, img)          (* validate_device_size *)
   else
     let b0 := nth_block img 0 in
     let b7 := nth_block img (N.to_nat FEOX_METADATA_BACKUP_BLOCK) in
     let mb := if select_meta b0 b7 then b7 else b0 in
-    if negb (list_eqb (firstn 8 mb) SIGNATURE) then Rej EInvalidMetadata
+    if negb (list_eqb (firstn 8 mb) SIGNATURE) then (Rej EInvalidMetadata, img)
     else match decode_meta mb with
-    | None => Rej EInvalidMetadata
+    | None => (Rej EInvalidMetadata, img)
     | Some m =>
       let version := m_version m in
       match decode_journal (slot_bytes img 0) (slot_bytes img 1) total with
-      | None => Rej ECorrupt
+      | None => (Rej ECorrupt, img)
       | Some (jgen, jslot, jexts) =>
         let p0 := mkjpos jgen jslot in
         let fs0 := mkfs [] (total * FEOX_BLOCK_SIZE) 0 0 in
         let st0 := mkrs [] fs0 0 0 0 [] FEOX_DATA_START_BLOCK 0 in
         match (if c_ro c then ReplayOk img p0 else replay img p0 jexts) with
-        | ReplayCoalesce => Rej (EFree EArg)   (* InvalidArgument; unreachable: decode checked overlap *)
-        | ReplayExhausted => Rej EJournalExhausted
+        | ReplayCoalesce => (Rej (EFree EArg), img)  (* InvalidArgument; unreachable: decode checked overlap *)
+        | ReplayExhausted img1 => (Rej EJournalExhausted, img1)
         | ReplayOk img1 p1 =>
           let jl := if c_ro c then sort_by_start jexts else [] in
-          do st1 <- scan (S (length img1)) c version total img1 FEOX_DATA_START_BLOCK st0 jl;
-          do st2 <- (match c_now c with
-                     | Some now => expire_winners c version now (rs_idx st1) st1
-                     | None => Ok st1 end);
-          match (if c_ro c then Some (img1, p1) else retire_extents img1 p1 (rs_retired st2)) with
-          | None => Rej ERetire
-          | Some (img2, p2) =>
-            do st3 <- (if rs_last_end st2 <? total
-                       then fs_release st2 (rs_last_end st2) (total - rs_last_end st2)
-                       else Ok st2);
-            Ok (mkopened version (rs_idx st3) (rs_fs st3) (rs_count st3) (rs_mem st3) (rs_disk st3)
-                         (rs_ambiguous st3) img2 p2)
+          match (do st1 <- scan (S (length img1)) c version total img1 FEOX_DATA_START_BLOCK st0 jl;
+                 match c_now c with
+                 | Some now => expire_winners c version now (rs_idx st1) st1
+                 | None => Ok st1 end) with
+          | Panic => (Panic, img1)
+          | Rej e => (Rej e, img1)
+          | Ok st2 =>
+            let '(img2, p2, ok) := if c_ro c then (img1, p1, true) else retire_extents img1 p1 (rs_retired st2) in
+            if negb ok then (Rej ERetire, img2)
+            else
+              match (if rs_last_end st2 <? total
+                     then fs_release st2 (rs_last_end st2) (total - rs_last_end st2)
+                     else Ok st2) with
+              | Panic => (Panic, img2)
+              | Rej e => (Rej e, img2)
+              | Ok st3 =>
+                (Ok (mkopened version (rs_idx st3) (rs_fs st3) (rs_count st3) (rs_mem st3) (rs_disk st3)
+                              (rs_ambiguous st3) img2 p2), img2)
+              end
           end
         end
       end
